@@ -4458,7 +4458,12 @@ impl JsrPackageVersionInfoExt {
   pub fn get_subpath<'a>(&self, specifier: &'a Url) -> Option<&'a str> {
     let base_url = self.base_url.as_str();
     let base_url = base_url.strip_suffix('/').unwrap_or(base_url);
-    specifier.as_str().strip_prefix(base_url)
+    specifier
+      .as_str()
+      .strip_prefix(base_url)
+      // the url of another version that only starts with this version's
+      // text (ex. `1.0.0-rc.1` for `1.0.0`) is not inside this package
+      .filter(|sub_path| sub_path.starts_with('/'))
   }
 
   pub fn get_checksum(&self, sub_path: &str) -> Result<&str, ModuleLoadError> {
